@@ -352,7 +352,7 @@ class Recognizer(IRecognizer):
         if len(recognized_subclasses) == 0:
             message = 'Failed to recognize {}'.format(
                     type_to_desc(expected_type))
-            if top:
+            if top or not causes:
                 message += '\n{}'.format(indent(str(node.start_mark), '  '))
             return set(), (message, causes)
 
